@@ -1629,7 +1629,8 @@ fn cmd_check(a: &Args) -> i32 {
                 "max_descriptors_open_at_once": sum.max_open_fds,
                 "stderr_prints_discarded": sum.stderr_prints,
                 "prints_after_process_exit_discarded": sum.prints_after_exit,
-                "hard_io_faults_in_gating_runs": "0 (deliberately not injected in gating runs: C18 does not say what a generator must do when its input is unreadable, see DESIGN §4.4)",
+                "read_errors_eio_injected_in_gating_runs": sum.read_faults_injected,
+                "hard_io_faults_in_gating_runs": "one kind: EIO on one seeded read in a sixth of the seeded runs; a run that meets it may fail loudly (the pinned generators do: expect()) but may not complete with a different table. Missing files, torn or corrupt content and listing errors stay in the non-gating exploration (DESIGN §4.4)",
             },
             "hard_fault_exploration_not_gating": {
                 "note": "separate batch, outcomes counted but never judged: one hard fault per run (EIO / ENOENT on the k-th file read, torn file, flipped bit, error entry in the listing, failing read_dir) on top of the run's ordinary seeded schedule",
@@ -1703,6 +1704,7 @@ fn cmd_check(a: &Args) -> i32 {
                 "S4_rows_looked_up_through_maximize": st.lookups,
                 "S4_maximize_calls_in_fresh_processes_table_order_reverse_order_after_neighbouring_misses_and_after_lookups_in_neighbouring_tables": st.lookup_queries,
                 "S4_fresh_processes_forked_each_with_another_first_lookup": st.fresh_process_children,
+                "S6_character_direction_queries_cold_and_in_two_sweeps": st.direction_queries,
                 "S4_rows_found": st.lookups_found,
                 "S4_tables_wholly_unreachable_not_gating": st.unreachable_tables,
                 "cldr_likely_subtags_keys": rf.key_text.len(),
